@@ -56,7 +56,8 @@ def cases(rng, tier):
     for o in OWNERS:
         m = importlib.import_module('props.' + o)
         cs = m.cases(rng, sub)
-        keep = cs if tier == 'thorough' else cs[:max(350, len(cs) // 4)]
+        # a random quarter (not a prefix: owners put their special streams at the end)
+        keep = cs if tier == 'thorough' else rng.sample(cs, max(350, len(cs) // 4))
         for c in keep:
             c.id = o + '_' + c.id
             c.meta['owner'] = o
